@@ -104,6 +104,17 @@ Example C13_nonvacuous :
   ctr (fst (exec (real_cfg false) ex_sched (init ex_start ex_progs) [])) = RejectAfterMessages.
 Proof. exact example_run. Qed.
 
+(* The premises of C13_sticky are met by a concrete run, and its "was waiting for its EncryptDanger call" clause is
+   needed: thread 0 holds ceiling-1 while thread 1 drives the counter to the ceiling; thread 0's encryption then still
+   succeeds, whereas what it reserves afterwards is refused. *)
+Example C13_sticky_nonvacuous :
+  let s1 := fst (exec (real_cfg false) st_sched1 (init st_start st_progs) []) in
+  headroom_ok st_start (length (st_sched1 ++ st_sched2)) /\
+  ctr s1 = NoiseRejectAfterMessages /\ ph (threads s1 0) = Reserved (RejectAfterMessages - 1) /\
+  snd (exec (real_cfg false) st_sched2 s1 []) =
+    [EvEnc 0 (RejectAfterMessages - 1) true; EvAdd 0 (RejectAfterMessages + 1); EvEnc 0 (RejectAfterMessages + 1) false].
+Proof. exact example_sticky. Qed.
+
 (* The lock is what gives (4): without it the same programs reach the cipher out of order. *)
 Example C13_order_needs_lock :
   exists sched, headroom_ok ex_start (length sched) /\
